@@ -189,8 +189,12 @@ class Shadow:
         B = self.batches[b]
         if B['updates'][J['update'] - 1]['committed']:
             return True
-        running = any(u['committed'] and u['n_jobs'] for u in B['updates'])
-        return running and (J['group'] == 0 or self.rng.random() < 0.3)
+        # the job's group is running when a committed, unfinished job sits in it or below it
+        for (bb, _), K in self.jobs.items():
+            if bb == b and K['inserted'] and B['updates'][K['update'] - 1]['committed'] and K['state'] not in TERMINAL \
+                    and J['group'] in self.ancestors(b, K['group']):
+                return True
+        return False
 
     def job_cancelled(self, b, J):
         B = self.batches[b]
@@ -235,6 +239,10 @@ class Shadow:
                     self.emit(f'schedule {b} {j} {a} {inst}', 'schedule')
                     if J['state'] == 'Creating':
                         J['state'] = 'Running'
+            elif kind < 0.03:
+                # a request naming an instance that does not exist (foreign key of attempts)
+                self.emit(rng.choice([f'schedule {b} {j} {a} 99', f'started {b} {j} {a} 99 {ts} {d}',
+                                      f'complete {b} {j} {a} 99 Success {ts - 5} {ts} completed {d}']), 'unknown-instance')
             elif kind < 0.75:
                 self.emit(f'schedule {b} {j} {a} {inst}', 'schedule')
                 if not self.job_cancelled(b, J):
@@ -399,6 +407,10 @@ def adversarial(rng: random.Random) -> Dict[str, Any]:
     n = rng.randint(1, 3)
     kind = rng.choice(['missing-parent', 'later-parent', 'self-parent', 'id-out-of-range', 'dup-parents', 'empty-update', 'unknown-group',
                        'later-group', 'wrong-user', 'groups-out-of-order', 'dup-job-id', 'abs-parent-in-future-update', 'zero-id'])
+    if rng.random() < 0.15 and B['updates']:
+        # another user re-sends the owner's update token / tries to open an update on a batch that is not theirs
+        s.emit(f'createUpdate {b} {B["updates"][0]["token"]} 2 0 2', 'adv:foreign-token')
+        s.emit(f'createUpdate {b} {B["updates"][0]["token"]} 2 0 1', 'dup:createUpdate')
     if kind == 'empty-update':
         s.tokens += 1
         s.emit(f'createUpdate {b} {s.tokens} 0 0 1', 'adv:empty-update')
